@@ -1,7 +1,7 @@
 (* C16_dup: ares_dup reproduces the covered option fields (save_init_effective), the local
    device / addresses / socket functions, and - when the application set the servers - the
    server list, through its text form (csv_fixpoint_plain_any). *)
-From CAres.Config Require Import Spec Options_proofs Csv_proofs.
+From CAres.Config Require Import Spec Options_proofs Csv_proofs Inv_proofs.
 From CAres.Gen Require Import Consts.
 Local Open Scope Z_scope.
 
@@ -50,6 +50,37 @@ Proof.
   - apply Ok_inj in Hd. subst d.
     split; [apply covered_same_set_local; exact CS|].
     cbn [chan_set_local c_ldev c_lip4 c_lip6 c_ifs]. repeat split; try reflexivity. discriminate.
+Qed.
+
+(* the two side conditions follow from the model of ares_init_options (Inv_proofs.v): only
+   hypotheses about the source channel remain *)
+Theorem dup_effective g e src d :
+  chan_wf src -> (has (c_optmask src) B_DOMAINS = true -> c_domains src <> []) ->
+  Forall (server_ok nf (c_ifs src)) (c_servers src) ->
+  (forall cu ct, distinct cu ct (c_servers src)) ->
+  (Z.testbit (c_flags src) 1 = true -> (length (c_servers src) <= 1)%nat) ->
+  dup nf g e src = Ok d ->
+  covered_same src d /\
+  c_ldev d = c_ldev src /\ c_lip4 d = c_lip4 src /\ c_lip6 d = c_lip6 src /\ c_ifs d = c_ifs src /\
+  (has (c_optmask src) B_SERVERS = true -> c_servers d = c_servers src).
+Proof.
+  intros W Hdom F D P Hd.
+  pose proof Hd as Hd0. unfold dup in Hd0.
+  destruct (save_options g src) as [[o m]| |] eqn:Hs; cbn [bind] in Hd0; try discriminate.
+  destruct (init_options nf e o m) as [d0| |] eqn:Hi; cbn [bind] in Hd0; try discriminate.
+  pose proof (save_init_effective nf g e src o m d0 W Hdom Hs Hi) as CS.
+  assert (m = c_optmask src) as Em.
+  { unfold save_options in Hs. destruct (_ || _ || _ || _); [discriminate|]. apply Ok_inj in Hs. injection Hs as _ Hm.
+    subst m. apply i32_small. exact (wf_mask src W). }
+  assert (Z.testbit (c_flags d0) 1 = true -> (length (c_servers src) <= 1)%nat) as P0.
+  { intros Hp. destruct (has (c_optmask src) B_FLAGS) eqn:Ef.
+    - apply P. rewrite <- (cs_flags _ _ CS Ef). exact Hp.
+    - assert (has (c_optmask d0) B_FLAGS = false) as Ef0.
+      { rewrite (cs_mask _ _ CS B_FLAGS); [exact Ef|unfold B_FLAGS; lia|unfold B_FLAGS, B_SERVERS; lia]. }
+      rewrite (init_options_primary nf e o m d0 Hi Ef0) in Hp. discriminate. }
+  destruct (dup_effective_partial g e src o m d0 d W Hdom Hs Hi F D (init_options_no_stray nf e o m d0 Hi) P0 Hd)
+    as (A & B0 & C & D0 & E0 & S).
+  rewrite Em in S. exact (conj A (conj B0 (conj C (conj D0 (conj E0 S))))).
 Qed.
 
 End WithNet.
